@@ -463,7 +463,12 @@ def gen_fn(repo, d, body, report):
             if k >= len(cls):
                 raise LostAnchor(f"{d['file']}::{d['name']}: closure ordinal {k} not found")
             (p0, p1, b0, b1) = cls[k]
-            edits.add(toks[p0].start, toks[p1].end, hdr + "\n" + text + "\n{ ", "R7", "closure header")
+            o = kv(sub["args"][2:])
+            bind = ""
+            if o.get("bind"):
+                # R7b: tuple pattern parameter -> typed variable + destructuring let (same semantics)
+                bind = f"let {o['bind']} = __p; "
+            edits.add(toks[p0].start, toks[p1].end, hdr + "\n" + text + "\n{ " + bind, "R7", "closure header")
             edits.add(toks[b1].end, toks[b1].end, " }", "R7", "")
             stats["R7"] = stats.get("R7", 0) + 1
         elif sub["kind"] == "rewrite":
